@@ -9,6 +9,8 @@
 #include <etl/_chrono/weekday.hpp>
 #include <etl/_chrono/weekday_last.hpp>
 #include <etl/_chrono/year.hpp>
+#include <etl/_chrono/year_month.hpp>
+#include <etl/_chrono/year_month_day.hpp>
 
 namespace etl::chrono {
 
@@ -36,6 +38,106 @@ public:
     chrono::month m;
     chrono::weekday_last wdl;
 };
+
+constexpr year_month_weekday_last::year_month_weekday_last(
+    chrono::year const& yr,
+    chrono::month const& mo,
+    chrono::weekday_last const& wl
+) noexcept
+    : y{yr}
+    , m{mo}
+    , wdl{wl}
+{
+}
+
+constexpr auto year_month_weekday_last::year() const noexcept -> chrono::year { return y; }
+
+constexpr auto year_month_weekday_last::month() const noexcept -> chrono::month { return m; }
+
+constexpr auto year_month_weekday_last::weekday() const noexcept -> chrono::weekday { return wdl.weekday(); }
+
+constexpr auto year_month_weekday_last::weekday_last() const noexcept -> chrono::weekday_last { return wdl; }
+
+constexpr auto year_month_weekday_last::ok() const noexcept -> bool { return y.ok() and m.ok() and wdl.ok(); }
+
+constexpr year_month_weekday_last::operator sys_days() const noexcept
+{
+    auto const lastDay = static_cast<sys_days>(year_month_day_last{y, month_day_last{m}});
+    auto const back    = (chrono::weekday{lastDay} - wdl.weekday()).count();
+    return sys_days{days{lastDay.time_since_epoch().count() - back}};
+}
+
+constexpr year_month_weekday_last::operator local_days() const noexcept
+{
+    return local_days{static_cast<sys_days>(*this).time_since_epoch()};
+}
+
+[[nodiscard]] constexpr auto
+operator==(year_month_weekday_last const& lhs, year_month_weekday_last const& rhs) noexcept -> bool
+{
+    return lhs.year() == rhs.year() and lhs.month() == rhs.month() and lhs.weekday_last() == rhs.weekday_last();
+}
+
+[[nodiscard]] constexpr auto operator+(year_month_weekday_last const& lhs, months const& rhs) noexcept
+    -> year_month_weekday_last
+{
+    auto const ym = year_month{lhs.year(), lhs.month()} + rhs;
+    return {ym.year(), ym.month(), lhs.weekday_last()};
+}
+
+[[nodiscard]] constexpr auto operator+(months const& lhs, year_month_weekday_last const& rhs) noexcept
+    -> year_month_weekday_last
+{
+    return rhs + lhs;
+}
+
+[[nodiscard]] constexpr auto operator-(year_month_weekday_last const& lhs, months const& rhs) noexcept
+    -> year_month_weekday_last
+{
+    return lhs + -rhs;
+}
+
+[[nodiscard]] constexpr auto operator+(year_month_weekday_last const& lhs, years const& rhs) noexcept
+    -> year_month_weekday_last
+{
+    return {lhs.year() + rhs, lhs.month(), lhs.weekday_last()};
+}
+
+[[nodiscard]] constexpr auto operator+(years const& lhs, year_month_weekday_last const& rhs) noexcept
+    -> year_month_weekday_last
+{
+    return rhs + lhs;
+}
+
+[[nodiscard]] constexpr auto operator-(year_month_weekday_last const& lhs, years const& rhs) noexcept
+    -> year_month_weekday_last
+{
+    return lhs + -rhs;
+}
+
+constexpr auto year_month_weekday_last::operator+=(months const& rhs) noexcept -> year_month_weekday_last&
+{
+    *this = *this + rhs;
+    return *this;
+}
+
+constexpr auto year_month_weekday_last::operator-=(months const& rhs) noexcept -> year_month_weekday_last&
+{
+    *this = *this - rhs;
+    return *this;
+}
+
+constexpr auto year_month_weekday_last::operator+=(years const& rhs) noexcept -> year_month_weekday_last&
+{
+    *this = *this + rhs;
+    return *this;
+}
+
+constexpr auto year_month_weekday_last::operator-=(years const& rhs) noexcept -> year_month_weekday_last&
+{
+    *this = *this - rhs;
+    return *this;
+}
 
 } // namespace etl::chrono
 
